@@ -162,7 +162,7 @@ def load_known_findings():
 # What an application may have switched on process-wide without touching the library: DEBUG logging for 'pymemcache' with a
 # handler that really formats every record (so every logging argument is evaluated).  Odd-numbered shards run under it; a
 # violation remembers the ambient state it was seen under and --replay restores it.
-AMBIENT = {"debug_log": False}
+AMBIENT = {"debug_log": False, "warnings_error": False}
 _LOG_COUNT = [0]
 
 
@@ -178,10 +178,16 @@ class _FormattingHandler:
         return True
 
 
-def set_ambient(debug_log=False):
+def set_ambient(debug_log=False, warnings_error=False):
+    """warnings_error: the process runs with warnings turned into errors (python -W error, PYTHONWARNINGS=error, pytest
+    filterwarnings=error) - a warning the library emits on some path then replaces that path's outcome"""
     import logging
     lg = logging.getLogger("pymemcache")
     AMBIENT["debug_log"] = bool(debug_log)
+    AMBIENT["warnings_error"] = bool(warnings_error)
+    if warnings_error:
+        import warnings
+        warnings.simplefilter("error")
     if debug_log:
         logging.raiseExceptions = False
         lg.setLevel(logging.DEBUG)
@@ -198,7 +204,7 @@ def _shard_child(modname, tier, seed, idx, n, outpath):
     import faulthandler
     faulthandler.enable()
     mod = importlib.import_module(modname)
-    set_ambient(debug_log=(idx % 2 == 1))
+    set_ambient(debug_log=(idx % 2 == 1), warnings_error=(((idx // 2) % 2 == 1) if n >= 4 else (idx % 2 == 0 and n >= 2)))
     try:
         res = mod.shard(tier, seed, idx, n)
         res.counters["log_records_formatted_under_ambient_DEBUG"] += _LOG_COUNT[0]
